@@ -29,6 +29,7 @@ import (
 	"strings"
 	"sync"
 	"sync/atomic"
+	"syscall"
 	"time"
 
 	mail "github.com/wneessen/go-mail"
@@ -151,7 +152,14 @@ type Case struct {
 	// the first Refuse attempts of the dial function fail (in-memory transport only)
 	Fallback bool
 	Refuse   int
+	// TCP (with Fallback): real loopback sockets and the stock dialers, no WithDialContextFunc: the primary port is a
+	// closed port, the fallback port (set through the verif hook VerifSetFallbackPort) a harness listener, or closed as
+	// well when Refuse >= 2.  HS "plain" (with SSL): the fallback server speaks plain SMTP instead of TLS.
+	TCP bool
 }
+
+// Net: the case runs over real TCP sockets (no tracked in-memory connection)
+func (c Case) Net() bool { return c.SSL || c.TCP }
 
 func list(l []string) string {
 	if len(l) == 0 {
@@ -186,7 +194,11 @@ func (c Case) Args() []string {
 	args := []string{c.Policy, b(c.SSL), hx.Hex([]byte(c.Auth)), c.Custom, hx.Hex([]byte(c.Host)), b(c.NoNoop), mute,
 		hx.HexList(caps), hx.HexList(capst), c.HS, list(c.Script), list(ms)}
 	if c.Fallback || c.Refuse > 0 {
-		args = append(args, b(c.Fallback), strconv.Itoa(c.Refuse))
+		fb := b(c.Fallback)
+		if c.TCP {
+			fb = "2"
+		}
+		args = append(args, fb, strconv.Itoa(c.Refuse))
 	}
 	return args
 }
@@ -216,7 +228,8 @@ func Parse(kind string, a []string) (Case, error) {
 		}
 	}
 	if len(a) == 14 {
-		c.Fallback = a[12] == "1"
+		c.Fallback = a[12] == "1" || a[12] == "2"
+		c.TCP = a[12] == "2"
 		c.Refuse, _ = strconv.Atoi(a[13])
 	}
 	return c, nil
@@ -326,7 +339,7 @@ func (o Obs) Observable(c Case) string {
 		}
 		return 0
 	}
-	if c.SSL {
+	if c.Net() {
 		return fmt.Sprintf("%s ended=%d srv=%s", rs, b(o.Ended), o.Srv)
 	}
 	return fmt.Sprintf("%s closes=%d open=%d arm=%s srv=%s", rs, o.Closes, b(o.Opened && !o.Closed), o.Arm, o.Srv)
@@ -349,7 +362,7 @@ func Classify(err error) string {
 	var rh tls.RecordHeaderError
 	msg := err.Error()
 	switch {
-	case errors.Is(err, errDialRefused):
+	case errors.Is(err, errDialRefused), errors.Is(err, syscall.ECONNREFUSED):
 		return "dialfail"
 	case errors.Is(err, smtp.ErrUnencrypted):
 		return "unenc"
@@ -457,7 +470,7 @@ func RunWith(c Case, p *PKI, timeout time.Duration, build func(transport ...mail
 	var rawMu sync.Mutex
 	var rawConn net.Conn // the server's underlying connection (for the garbage handshake)
 	switch c.HS {
-	case "ok":
+	case "ok", "plain":
 		srv.TLSConfig = &tls.Config{Certificates: []tls.Certificate{p.Good}, MinVersion: tls.VersionTLS12}
 	case "wrongname":
 		srv.TLSConfig = &tls.Config{Certificates: []tls.Certificate{p.WrongName}, MinVersion: tls.VersionTLS12}
@@ -515,35 +528,67 @@ func RunWith(c Case, p *PKI, timeout time.Duration, build func(transport ...mail
 	var memClient *smtpx.Conn
 	var tap *tapConn
 	var ln net.Listener
-	if c.SSL {
-		srv.ImplicitTLS = true
+	fallbackPort := 0
+	if c.Net() {
+		srv.ImplicitTLS = c.SSL && c.HS != "plain"
 		var err error
 		addr := c.Host
 		if strings.Contains(addr, ":") {
 			addr = "[" + addr + "]"
 		}
-		ln, err = net.Listen("tcp", addr+":0")
-		if err != nil {
-			return o, fmt.Errorf("listen on %s: %w", c.Host, err)
-		}
-		port := ln.Addr().(*net.TCPAddr).Port
-		go func() {
-			conn, err := ln.Accept()
+		closedPort := func() (int, error) { // listen, note the port, close: nobody listens there
+			l, err := net.Listen("tcp", addr+":0")
 			if err != nil {
-				close(srv.Done)
-				return
+				return 0, err
 			}
-			tap = &tapConn{Conn: conn}
-			rawMu.Lock()
-			rawConn = conn
-			rawMu.Unlock()
-			var sc net.Conn = tap
-			if c.Mute >= 0 {
-				sc = &muteConn{Conn: tap, left: c.Mute}
+			pt := l.Addr().(*net.TCPAddr).Port
+			l.Close()
+			return pt, nil
+		}
+		port := 0
+		if c.TCP && c.Refuse >= 2 {
+			if fallbackPort, err = closedPort(); err != nil {
+				return o, fmt.Errorf("listen on %s: %w", c.Host, err)
 			}
-			srv.Serve(sc)
-		}()
-		topts = append(topts, mail.WithSSL(), mail.WithPort(port))
+			close(srv.Done) // no server at all
+		} else {
+			ln, err = net.Listen("tcp", addr+":0")
+			if err != nil {
+				return o, fmt.Errorf("listen on %s: %w", c.Host, err)
+			}
+			port = ln.Addr().(*net.TCPAddr).Port
+			go func() {
+				conn, err := ln.Accept()
+				if err != nil {
+					close(srv.Done)
+					return
+				}
+				tap = &tapConn{Conn: conn}
+				rawMu.Lock()
+				rawConn = conn
+				rawMu.Unlock()
+				var sc net.Conn = tap
+				if c.Mute >= 0 {
+					sc = &muteConn{Conn: tap, left: c.Mute}
+				}
+				srv.Serve(sc)
+			}()
+		}
+		if c.TCP {
+			// the harness listener is the FALLBACK port; the primary port is closed
+			fallbackPort = port
+			if c.Refuse >= 2 {
+				fallbackPort, _ = closedPort()
+			}
+			if port, err = closedPort(); err != nil {
+				return o, fmt.Errorf("listen on %s: %w", c.Host, err)
+			}
+		}
+		if c.SSL {
+			topts = append(topts, mail.WithSSL())
+		}
+		topts = append(topts, mail.WithPort(port))
+		_ = port
 	} else {
 		attempts := 0
 		topts = append(topts, mail.WithDialContextFunc(func(ctx context.Context, network, address string) (net.Conn, error) {
@@ -576,6 +621,14 @@ func RunWith(c Case, p *PKI, timeout time.Duration, build func(transport ...mail
 			ln.Close()
 		}
 		return o, fmt.Errorf("NewClient: %w", err)
+	}
+	if c.TCP {
+		if err := setFallbackPort(client, fallbackPort); err != nil {
+			if ln != nil {
+				ln.Close()
+			}
+			return o, err
+		}
 	}
 	msgs := make([]*mail.Msg, len(c.Msgs))
 	for i, n := range c.Msgs {
@@ -687,7 +740,7 @@ func RunWith(c Case, p *PKI, timeout time.Duration, build func(transport ...mail
 		o.Closed, o.Closes = memClient.Closed()
 	}
 	close(release)
-	if !c.SSL && memClient == nil {
+	if !c.Net() && memClient == nil {
 		// every dial attempt was refused: no connection, no server
 		o.Results, o.Phase = oc.results, oc.phase
 		if oc.first != nil {
@@ -715,7 +768,7 @@ func RunWith(c Case, p *PKI, timeout time.Duration, build func(transport ...mail
 		oc.results = []string{"HANG"}
 		oc.phase = ""
 	}
-	if c.SSL {
+	if c.Net() {
 		// TCP: a write to a connection the peer has closed may succeed (the read then sees EOF) or fail (EPIPE, reset)
 		for i, x := range oc.results {
 			if x == "write" || x == "eof" || strings.Contains(x, "reset_by_peer") || strings.Contains(x, "broken_pipe") {
@@ -729,12 +782,12 @@ func RunWith(c Case, p *PKI, timeout time.Duration, build func(transport ...mail
 	}
 	// a successful plain dial leaves the connection legitimately open: decide "ended" first, then clean up
 	grace := 300 * time.Millisecond
-	if c.SSL {
+	if c.Net() {
 		grace = 1500 * time.Millisecond
 	}
 	stillOpen := c.Kind == "dial" && len(oc.results) == 1 && oc.results[0] == "ok"
 	if stillOpen {
-		if c.SSL {
+		if c.Net() {
 			select {
 			case <-srv.Done:
 				o.Ended = true
@@ -827,6 +880,18 @@ func RunWith(c Case, p *PKI, timeout time.Duration, build func(transport ...mail
 		o.Clear = tap.Got()
 		o.AllTLS = len(o.Clear) == 0 || (len(o.Clear) >= 2 && o.Clear[0] == 0x16 && o.Clear[1] == 0x03)
 		o.Opened = true
+		if !c.SSL {
+			// STARTTLS over TCP: the cleartext part ends where the first TLS record begins
+			if i := bytes.Index(o.Clear, []byte("\r\n\x16\x03")); i >= 0 {
+				o.Clear = o.Clear[:i+2]
+			}
+		}
+	}
+	if c.Net() && tap == nil {
+		o.AllTLS = true // no connection reached a harness listener: nothing at all was received
+	}
+	if c.SSL && c.HS == "plain" {
+		o.Srv = "-" // the fallback server is not a TLS server: its own log is not part of the comparison
 	}
 	return o, nil
 }
